@@ -217,10 +217,10 @@ def run_case(contract_id, case, props, tier="quick", seed=0, diff=True):
         if kind == "unsupported":
             report["unsupported"].append(f"path {path.prefix}: {outcome[1]}")
             continue
+        for cl in path.side_clauses:
+            _discharge_clause(report, contract, case, path, P, pc[: getattr(cl, "_pc_len", len(pc))], cl, props, oid, timeout, cross, seed, pi)
         if kind == "cut":
             # loop-contract paths: obligations were collected at the cut
-            for cl in getattr(outcome[1], "clauses", []):
-                _discharge_clause(report, contract, case, path, P, pc, cl, props, oid, timeout, cross, seed, pi)
             continue
         try:
             expected = contract.raises(P, case)
